@@ -1,13 +1,11 @@
 package grammar
 
 import (
-	"fmt"
 	"os"
 	"testing"
-	"time"
 )
 
-func TestCounts(t *testing.T) {
+func load(t *testing.T, memoMax int) *Gen {
 	src, err := os.ReadFile("/repo/cypher/grammar/Cypher.g4")
 	if err != nil {
 		t.Skip(err)
@@ -16,25 +14,31 @@ func TestCounts(t *testing.T) {
 	if err != nil {
 		t.Fatal(err)
 	}
-	gen, err := New(g, Options{Pools: CypherPools(false), Penalty: CypherPenalty()})
+	gen, err := New(g, Options{Pools: CypherPools(false), Penalty: CypherPenalty(), MemoMax: memoMax})
 	if err != nil {
 		t.Fatal(err)
 	}
-	fmt.Println("rules", len(g.Rules), "parser", len(g.ParserRules), "min:", gen.Min("oC_Cypher"))
-	for _, c := range gen.RuleContexts("oC_Cypher") {
-		fmt.Printf("%-40s cost=%d dom=%-30s %q | %q   min=%q\n", c.Rule, c.Cost, c.Dominated, Render(c.Pre), Render(c.Post), gen.Min(c.Rule))
+	return gen
+}
+
+// The materialising and the streaming enumerator must produce the same derivations.
+func TestStreamingEqualsMaterialised(t *testing.T) {
+	a, b := load(t, 2), load(t, 1)
+	if a.Min("oC_Cypher") != "RETURN *" {
+		t.Fatalf("minimal query is %q", a.Min("oC_Cypher"))
 	}
-	fmt.Println("occurrence contexts:", len(gen.OccurrenceContexts("oC_Cypher")))
-	for k := 0; k <= 3; k++ {
-		t0 := time.Now()
-		n := 0
-		st := gen.Enumerate(Plan{Root: "oC_Cypher", K: k, OccK: k - 1}, func(tx Text) bool {
-			n++
-			if k == 1 && n%40 == 0 {
-				fmt.Printf("   %q\n", tx.Text)
-			}
-			return true
-		})
-		fmt.Printf("k %d %+v %v\n", k, st, time.Since(t0))
+	seenA, seenB := map[string]bool{}, map[string]bool{}
+	sa := a.Enumerate(Plan{Root: "oC_Cypher", K: 2, OccK: 1}, func(x Text) bool { seenA[x.Text] = true; return true })
+	sb := b.Enumerate(Plan{Root: "oC_Cypher", K: 2, OccK: 1}, func(x Text) bool { seenB[x.Text] = true; return true })
+	if sa.Derivations != sb.Derivations || sa.Distinct != sb.Distinct || len(seenA) != len(seenB) {
+		t.Fatalf("materialised %+v vs streamed %+v", sa, sb)
+	}
+	for k := range seenA {
+		if !seenB[k] {
+			t.Fatalf("%q only in the materialised enumeration", k)
+		}
+	}
+	if len(a.RuleContexts("oC_Cypher")) != len(a.G.ParserRules) {
+		t.Fatalf("%d of %d parser rules reachable", len(a.RuleContexts("oC_Cypher")), len(a.G.ParserRules))
 	}
 }
